@@ -253,8 +253,8 @@ def value_strategy():
 printf_format = st.builds(
     lambda flags, width, prec, conv: "%" + "".join(sorted(set(flags))) + width + (f".{prec}" if prec is not None else "") + conv,
     st.lists(st.sampled_from("-+ 0#"), max_size=3),
-    st.sampled_from(["", "", "1", "4", "8", "12"]),
-    st.none() | st.integers(0, 8),
+    st.sampled_from(["", "", "1", "4", "8", "12", "30", "80"]),  # (printf puts no limit on width or precision)
+    st.none() | st.integers(0, 8) | st.sampled_from([20, 60]),
     st.sampled_from(["f", "f", "d"]),
 )
 sexa_format = st.builds(lambda w, f: f"%{w}.{f}m", st.sampled_from(["", "6", "8", "10", "12"]), st.sampled_from([3, 5, 6, 8, 9]))
@@ -308,6 +308,9 @@ def run(ctx):
 
     long_numbers = st.one_of(
         gen.number_text(),
+        # the INDI number grammar has no length limit: exact decimal expansions, zero padding
+        st.builds(lambda sign, lead, digits, frac: f"{sign}{'0' * lead}{digits}.{frac}", st.sampled_from(["", "-", "+"]), st.sampled_from([0, 3, 70]),
+                  st.integers(0, 10**9), st.sampled_from(["5", "000000000100000000008180305391403130954586231382563710212707519531250", "0" * 90])),
         st.builds(
             lambda sign, a, sep, b, c, frac: f"{sign}{a}{sep}{b}" + (f"{sep}{c}" if c is not None else "") + (f".{frac}" if frac else ""),
             st.sampled_from(["", "-", "+"]), st.integers(0, 99999), st.sampled_from([":", ";", " "]), st.integers(0, 59),
